@@ -305,17 +305,15 @@ Section Exec.
     | KTd, [a; b] => let t := ts s in
                      match sfloat a, sfloat b with
                      | Some tx, Some ty => set_ts s (with_tmatrix t (do_Td_matrix QOps tx ty (tmatrix t)) (0, 0))
-                     | _, _ => set_ts s (with_tmatrix t (tmatrix t) (0, 0))
+                     | _, _ => s
                      end
     | KTD, [a; b] => let t := ts s in
-                     let t1 := match sfloat a, sfloat b with
-                               | Some tx, Some ty => with_tmatrix t (do_TD_matrix QOps tx ty (tmatrix t)) (tlinematrix t)
-                               | _, _ => t end in
-                     let t2 := match sfloat b with
-                               | Some ty => mkTS (tfont t1) (tfontsize t1) (tcharspace t1) (twordspace t1) (tscaling t1) ty
-                                                 (trender t1) (trise t1) (tmatrix t1) (tlinematrix t1)
-                               | None => t1 end in
-                     set_ts s (with_tmatrix t2 (tmatrix t2) (0, 0))
+                     match sfloat a, sfloat b with
+                     | Some tx, Some ty =>
+                         set_ts s (mkTS (tfont t) (tfontsize t) (tcharspace t) (twordspace t) (tscaling t) ty
+                                        (trender t) (trise t) (do_TD_matrix QOps tx ty (tmatrix t)) (0, 0))
+                     | _, _ => s
+                     end
     | KTm, _ => match all_floats args with
                 | Some [a; b; c; d; e; f] => set_ts s (with_tmatrix (ts s) (a, b, c, d, e, f) (0, 0))
                 | _ => s
